@@ -30,14 +30,18 @@ def _c02_cases(tier, seed):
     for _ in range(n):
         yield {"lineup": _lineup(rnd), "E": rnd.choice([1, 2, 3]), "N": rnd.choice([5, 12]), "dims": rnd.choice([1, 2, 3]),
                "seed": rnd.randrange(1000), "calls": [rnd.randint(1, 3) for _ in range(rnd.randint(1, 3))],
-               "kind": rnd.choice(["normal", "normal", "extreme"])}
+               "kind": rnd.choice(["normal", "normal", "extreme"]), "filters": rnd.random() < 0.4}
 
 
 def _c02_check(reg, case):
     model = e2e.Model(D=1, kind=case["kind"])
     cfg = dict(case)
     cfg["pr"] = [0.01] * case["dims"]
-    cal, model, loss, samplers = e2e.make_calibrator(cfg, model=model)
+    loss = None
+    if case.get("filters") and case["kind"] == "normal":
+        from black_it.loss_functions.msm import MethodOfMomentsLoss
+        loss = MethodOfMomentsLoss(coordinate_filters=[e2e.demean_filter], moment_calculator=e2e.two_moments)
+    cal, model, loss, samplers = e2e.make_calibrator(cfg, model=model, loss=loss)
     slog = e2e.SampleLog(samplers)
     table = dict(cal.samplers_id_table)
     prev = None
@@ -136,15 +140,23 @@ StandIn("C09/constructor", "C09", "all four combinations of the samplers / sched
 
 def _c11_cases(tier, seed):
     rnd = random.Random(seed + 11)
-    n = 12 if tier == "quick" else 120
+    # exhaustive part: every invocation index of a small run, every site, both scheduler kinds
+    nb, bs, E = 3, 2, 1
+    for rl in (False, True):
+        for site, top in (("model", nb * bs * E + 1), ("loss", nb * bs + 1), ("sampler", 2 * nb)):
+            for k in range(0, top if tier != "quick" else min(top, 5)):
+                yield {"lineup": [("halton", bs), ("random", bs)], "E": E, "dims": 2, "seed": 3, "nb": nb, "site": site,
+                       "k": k, "rl": rl, "folder": False}
+    yield {"lineup": [("halton", 2)], "E": 1, "dims": 2, "seed": 3, "nb": 0, "site": "model", "k": 0, "rl": True,
+           "folder": False}
+    n = 6 if tier == "quick" else 100
     for _ in range(n):
         lineup = _lineup(rnd, n=rnd.randint(1, 3))
-        nb = rnd.randint(1, 5)
-        site = rnd.choice(["model", "loss", "sampler"])
         rl = rnd.random() < 0.4
         # RL scheduler + saving folder cannot checkpoint at all (known finding under C04: scheduler not picklable)
-        yield {"lineup": lineup, "E": rnd.choice([1, 2]), "dims": 2, "seed": rnd.randrange(100), "nb": nb,
-               "site": site, "k": rnd.randrange(0, 12), "rl": rl, "folder": (rnd.random() < 0.3) and not rl}
+        yield {"lineup": lineup, "E": rnd.choice([1, 2]), "dims": 2, "seed": rnd.randrange(100), "nb": rnd.randint(1, 6),
+               "site": rnd.choice(["model", "loss", "sampler"]), "k": rnd.randrange(0, 12), "rl": rl,
+               "folder": (rnd.random() < 0.3) and not rl}
 
 
 def _build(case, folder, fail):
@@ -220,68 +232,91 @@ def _c11_check(reg, case):
 
 
 StandIn("C11/fault-injection", "C11",
-        "12 seeded runs: exception injected at a seeded invocation index (0-11) of the model / loss / a sampler, "
-        "1-5 batches, round-robin and RL schedulers, with and without saving folder; compared with a fault-free twin",
-        "120 runs", _c11_cases, _c11_check)
+        "exhaustive for a 3-batch run (2 samplers, batch 2): exception at invocation index 0-4 of the model / the loss / "
+        "a sampler, round-robin and RL schedulers (+ calibrate(0) with RL), plus 6 seeded larger runs (1-6 batches, "
+        "with/without saving folder); compared with a fault-free twin; live threads, alignment, reuse checked",
+        "all invocation indices of the 3-batch run + 100 seeded runs", _c11_cases, _c11_check)
 
 
 # ================================================================================================ C14
 
 def _c14_cases(tier, seed):
     rnd = random.Random(seed + 14)
-    n = 14 if tier == "quick" else 150
-    for _ in range(n):
-        p = rnd.choice([0, 1, 2, 4, 12])
-        nb = rnd.randint(1, 5)
+    n = 24 if tier == "quick" else 250
+    vals = [3.0, 0.7, 0.04, 0.004, 4e-5, 6e-9, 4e-9, 4e-13, 0.0, 0.5, 0.06, 0.49, 0.51]
+    for i in range(n):
+        p = rnd.choice([0, 0, 1, 2, 4, 8, 9, 12])
         bs = rnd.randint(1, 3)
-        vals = [rnd.choice([3.0, 0.7, 0.04, 0.004, 4e-5, 4e-13, 0.0, 0.5, 0.06]) for _ in range(nb * bs)]
-        yield {"p": rnd.choice([p, p, None]), "nb": nb, "bs": bs, "losses": vals, "verbose": rnd.random() < 0.5,
-               "folder": rnd.random() < 0.5, "seed": rnd.randrange(50)}
+        calls = [rnd.randint(1, 4) for _ in range(rnd.choice([1, 1, 2, 3]))]
+        tot = sum(calls) * bs
+        losses = [rnd.choice(vals) for _ in range(tot)]
+        if i % 3 == 0:   # make sure some runs converge early and are then continued
+            losses[rnd.randrange(0, max(1, tot // 2))] = rnd.choice([0.0, 4e-13, 0.004, 0.04, 4e-9])
+        yield {"p": rnd.choice([p, p, p, None]), "calls": calls, "bs": bs, "losses": losses,
+               "verbose": rnd.random() < 0.5, "folder": rnd.random() < 0.5, "seed": rnd.randrange(50),
+               "restore_between": rnd.random() < 0.3}
 
 
 def _c14_check(reg, case):
     from black_it.calibrator import Calibrator
     with e2e.tmp_folder() as d:
         loss = e2e.make_loss(scripted=case["losses"])
+        folder = d if (case["folder"] or case["restore_between"]) else None
         cfg = {"lineup": [("random", case["bs"])], "E": 1, "conv": case["p"], "verbose": case["verbose"],
-               "folder": d if case["folder"] else None, "seed": case["seed"], "dims": 2}
+               "folder": folder, "seed": case["seed"], "dims": 2}
         cal, model, loss, samplers = e2e.make_calibrator(cfg, model=e2e.pure_model, loss=loss)
-        with e2e.quiet():
-            cal.calibrate(case["nb"])
-        # expected stopping batch from the property statement
-        exp = case["nb"]
-        if case["p"] is not None:
-            for b in range(1, case["nb"] + 1):
-                best = min(case["losses"][: b * case["bs"]])
-                if np.round(best, case["p"]) == 0:
-                    exp = b
-                    break
-        if cal.current_batch_index != exp:
-            return (f"ran {cal.current_batch_index} batches, expected {exp} (precision={case['p']}, "
-                    f"verbose={case['verbose']}, losses={case['losses']})")
-        if cal.n_sampled_params != exp * case["bs"]:
-            return "the triggering batch is not part of the returned history"
-        if case["folder"]:
+        done = 0   # batches over the whole life
+        for ci, nb in enumerate(case["calls"]):
+            if ci > 0 and case["restore_between"]:
+                with e2e.quiet():
+                    cal = Calibrator.restore_from_checkpoint(d, model=e2e.pure_model)
             with e2e.quiet():
-                r = Calibrator.restore_from_checkpoint(d, model=e2e.pure_model)
-            if r.current_batch_index != exp or r.n_sampled_params != exp * case["bs"] or \
-                    len(r.losses_samp) != exp * case["bs"]:
-                return (f"checkpoint holds batch {r.current_batch_index} / {len(r.losses_samp)} rows but calibrate() "
-                        f"returned with batch {exp} / {exp * case['bs']} rows")
+                cal.calibrate(nb)
+            # expected number of batches of THIS call, from the property statement
+            exp = nb
+            if case["p"] is not None:
+                for b in range(1, nb + 1):
+                    best = min(case["losses"][: (done + b) * case["bs"]])
+                    if np.round(best, case["p"]) == 0:
+                        exp = b
+                        break
+            done += exp
+            if cal.current_batch_index != done:
+                return (f"call {ci} (calibrate({nb})) ended at batch {cal.current_batch_index}, expected {done} "
+                        f"(precision={case['p']}, verbose={case['verbose']}, losses={case['losses']})")
+            if cal.n_sampled_params != done * case["bs"]:
+                return "the triggering batch is not part of the returned history"
+            if folder:
+                with e2e.quiet():
+                    r = Calibrator.restore_from_checkpoint(d, model=e2e.pure_model)
+                if r.current_batch_index != done or r.n_sampled_params != done * case["bs"] or \
+                        len(r.losses_samp) != done * case["bs"]:
+                    return (f"checkpoint holds batch {r.current_batch_index} / {len(r.losses_samp)} rows but "
+                            f"calibrate() returned with batch {done} / {done * case['bs']} rows")
     return None
 
 
 StandIn("C14/scripted-losses", "C14",
-        "14 seeded runs with scripted loss sequences, precisions {None,0,1,2,4,12}, verbose on/off, with/without "
-        "saving folder, 1-5 batches of 1-3 rows; stop batch, history length and restored checkpoint compared",
-        "150 runs", _c14_cases, _c14_check)
+        "24 seeded lives of 1-3 successive calibrate(1..4) calls (optionally restored from the checkpoint in between) "
+        "with scripted loss sequences incl. 0, 4e-13, 4e-9, 6e-9, .49/.51; precisions {None,0,1,2,4,8,9,12}, verbose "
+        "on/off, with/without saving folder; stop batch of every call, history length and restored checkpoint compared",
+        "250 lives", _c14_cases, _c14_check)
 
 
 # ================================================================================================ C18
 
 def _c18_cases(tier, seed):
     rnd = random.Random(seed + 18)
-    n = 8 if tier == "quick" else 60
+    # systematic: repeated classes before another class, then a replacement introducing a new class
+    fixed = [
+        ([("random", 1), ("random", 2), ("halton", 1)], [("set_samplers", [("random", 1), ("halton", 1), ("best", 1)]), ("calibrate", [])]),
+        ([("halton", 1), ("rseq", 1)], [("set_samplers", [("rseq", 1), ("best", 1)]), ("calibrate", [])]),
+        ([("halton", 2), ("halton", 1), ("random", 1)], [("calibrate", []), ("set_scheduler", [("best", 1), ("rseq", 1)]), ("calibrate", [])]),
+        ([("random", 1), ("halton", 1)], [("set_samplers", [("random", 1), ("halton", 1), ("rseq", 2)]), ("calibrate", []), ("calibrate", [])]),
+    ]
+    for lu, steps in fixed:
+        yield {"lineup": lu, "steps": steps, "seed": 1}
+    n = 6 if tier == "quick" else 60
     for _ in range(n):
         steps = []
         for _s in range(rnd.randint(1, 4)):
@@ -290,20 +325,19 @@ def _c18_cases(tier, seed):
 
 
 def _c18_check(reg, case):
+    from black_it.calibrator import Calibrator
     from black_it.plot.plot_results import _get_samplers_names
     from black_it.schedulers.round_robin import RoundRobinScheduler
     with e2e.tmp_folder() as d:
         cfg = {"lineup": case["lineup"], "E": 1, "seed": case["seed"], "folder": d, "dims": 2}
-        cal, *_ = e2e.make_calibrator(cfg, model=e2e.pure_model)
+        nlog = e2e.NameLog()
+        first = [nlog.watch(e2e.make_sampler(k, b)) for k, b in case["lineup"]]
+        cal, *_ = e2e.make_calibrator(cfg, model=e2e.pure_model, samplers=first)
         seen = {}
-        produced = {}  # row index -> class name
 
         def run_batch():
-            n0 = cal.n_sampled_params
-            cur = cal.scheduler.get_next_sampler() if False else None
             with e2e.quiet():
                 cal.calibrate(1)
-            return n0
 
         def note_table():
             for k, v in cal.samplers_id_table.items():
@@ -311,45 +345,60 @@ def _c18_check(reg, case):
                     return f"id of {k} was reassigned from {seen[k]} to {v}"
                 seen[k] = v
             if len(set(cal.samplers_id_table.values())) != len(cal.samplers_id_table):
-                return "two classes share an id"
+                return f"two classes share an id: {cal.samplers_id_table}"
             return None
         m = note_table()
         if m:
             return m
-        n0 = run_batch()
+        run_batch()
         for op, lu in case["steps"]:
             if op == "calibrate":
                 run_batch()
             elif op == "set_samplers":
-                cal.set_samplers([e2e.make_sampler(k, b) for k, b in lu])
+                cal.set_samplers([nlog.watch(e2e.make_sampler(k, b)) for k, b in lu])
             else:
-                cal.set_scheduler(RoundRobinScheduler([e2e.make_sampler(k, b) for k, b in lu]))
+                cal.set_scheduler(RoundRobinScheduler([nlog.watch(e2e.make_sampler(k, b)) for k, b in lu]))
             m = note_table()
             if m:
                 return m
         run_batch()
+        m = note_table()
+        if m:
+            return m
+        row_class = [name for name, n in nlog.rows for _ in range(n)]
+        if len(row_class) != len(cal.method_samp):
+            return "sampler invocations do not account for the recorded rows"
         inv = {v: k for k, v in cal.samplers_id_table.items()}
-        for mid in np.unique(cal.method_samp):
-            if int(mid) not in inv:
-                return f"stored label {mid} is not an id of the calibrator's table"
-        # recoverability from the checkpoint the calibrator itself wrote
-        ids = [int(x) for x in np.unique(cal.method_samp)]
+        for i, mid in enumerate(cal.method_samp):
+            if inv.get(int(mid)) != row_class[i]:
+                return f"row {i} was produced by {row_class[i]} but carries id {mid} ({inv.get(int(mid))})"
+        # recoverability from the checkpoint the calibrator itself wrote: ids in row order (not sorted, with repeats)
+        ids = [int(x) for x in cal.method_samp][::-1]
+        exp = [inv[i] for i in ids]
+        # what a table rebuilt from the line-up current at save time would say (the known, recorded limitation)
+        rebuilt = Calibrator._construct_samplers_id_table(list(cal.scheduler.samplers))  # noqa: SLF001
+        rinv = {v: k for k, v in rebuilt.items()}
         try:
             names = _get_samplers_names(d, ids)
         except KeyError as e:
-            return (f"[plot-table-recomputed] the table rebuilt from the checkpointed line-up has no entry for stored "
-                    f"id {e} (ids {ids}, calibrator table {cal.samplers_id_table})")
+            if any(i not in rinv for i in ids):
+                return (f"[plot-table-recomputed] the table rebuilt from the checkpointed line-up has no entry for "
+                        f"stored id {e} (ids {sorted(set(ids))}, calibrator table {cal.samplers_id_table})")
+            return f"plotting utilities cannot map ids back although the current line-up covers them: KeyError {e}"
         except Exception as e:  # noqa: BLE001
             return f"[plot-table-from-checkpoint] plotting utilities cannot map ids back: {type(e).__name__}: {e}"
-        exp = [inv[i] for i in ids]
         if names != exp:
-            return f"[plot-table-recomputed] checkpoint maps ids {ids} to {names}, the calibrator meant {exp}"
+            if all(i in rinv for i in ids) and names == [rinv[i] for i in ids] and rebuilt != cal.samplers_id_table:
+                return (f"[plot-table-recomputed] checkpoint maps ids {sorted(set(ids))} through the rebuilt table "
+                        f"{rebuilt}, the calibrator meant {cal.samplers_id_table}")
+            return f"checkpoint maps ids {ids} to {names}, the calibrator meant {exp}"
     return None
 
 
 StandIn("C18/labels-e2e", "C18",
-        "8 seeded histories of calibrate / set_samplers / set_scheduler (1-4 steps, line-ups of 1-3 cheap samplers); "
-        "id stability, label validity and id->name recovery from the checkpoint through black_it.plot",
+        "4 systematic histories (repeated classes, replacement introducing a new class) + 6 seeded histories of "
+        "calibrate / set_samplers / set_scheduler; id stability and uniqueness, every row's id names the class that "
+        "produced it (spied at the scheduler), id->name recovery from the checkpoint in row order through black_it.plot",
         "60 histories", _c18_cases, _c18_check)
 
 
@@ -559,3 +608,82 @@ StandIn("C16/best-batch", "C16",
         "15 seeded runs: 1-4 parameters (grid-aligned bounds), histories of 4-12 points with plain / tied / infinite "
         "losses, perturbation ranges 2/3/6: every proposal descends from one of the batch_size lowest-loss points by "
         "whole steps within range (or is confined at a bound)", "200 runs", _c16b_cases, _c16b_check)
+
+
+# ================================================================================================ C09 (RL clause)
+
+from black_it.schedulers.rl.agents.base import Agent  # noqa: E402
+
+
+class ScriptedAgent(Agent):
+    """Scripted policy (module level: picklable)."""
+
+    def __init__(self, actions):
+        super().__init__(random_state=0)
+        self.actions = list(actions)
+        self.k = 0
+        self.learned = []
+
+    def policy(self, state):  # noqa: ARG002
+        a = self.actions[self.k % len(self.actions)]
+        self.k += 1
+        return int(a)
+
+    def learn(self, state, action, reward, next_state):  # noqa: ARG002
+        self.learned.append((int(action), float(reward)))
+
+
+def _c09rl_cases(tier, seed):
+    rnd = random.Random(seed + 9)
+    n = 10 if tier == "quick" else 100
+    for i in range(n):
+        with_halton = rnd.random() < 0.5
+        kinds = [rnd.choice(["random", "rseq", "best"]) for _ in range(rnd.randint(1, 3))]
+        if with_halton:
+            kinds.insert(rnd.randrange(len(kinds) + 1), "halton")
+        nb = rnd.randint(2, 5)
+        n_s = len(kinds) + (0 if with_halton else 1)
+        losses = [rnd.choice([5.0, 3.0, 1.0, 0.5, 0.0, 2.0]) for _ in range(40)]
+        if i % 3 == 0:
+            losses[0] = 0.0   # a perfect first batch
+        yield {"kinds": kinds, "bs": [1 if k == "best" else rnd.randint(1, 3) for k in kinds], "nb": nb,
+               "actions": [rnd.randrange(n_s) for _ in range(nb + 2)], "losses": losses, "seed": rnd.randrange(100)}
+
+
+def _c09rl_check(reg, case):
+    from black_it.samplers.halton import HaltonSampler
+    from black_it.schedulers.rl.envs.mab import MABCalibrationEnv
+    from black_it.schedulers.rl.rl_scheduler import RLScheduler
+    samplers = [e2e.make_sampler(k, b) for k, b in zip(case["kinds"], case["bs"])]
+    has_h = any(isinstance(x, HaltonSampler) for x in samplers)
+    n_s = len(samplers) + (0 if has_h else 1)
+    agent = ScriptedAgent(case["actions"])
+    sched = RLScheduler(samplers, agent, MABCalibrationEnv(n_s), random_state=case["seed"])
+    all_s = list(sched.samplers)
+    if not all(any(x is y for y in all_s) for x in samplers) or len(all_s) != n_s:
+        return "the scheduler's sampler set is not the supplied set (plus a bootstrap Halton if absent)"
+    cfg = {"E": 1, "dims": 2, "seed": case["seed"]}
+    cal, *_ = e2e.make_calibrator(cfg, model=e2e.pure_model, loss=e2e.make_loss(scripted=case["losses"]),
+                                  scheduler=sched)
+    slog = e2e.SampleLog(all_s)
+    with e2e.quiet():
+        cal.calibrate(case["nb"])
+    used = [i for i, _ in slog.log]
+    if len(used) != case["nb"]:
+        return f"{len(used)} batches produced for calibrate({case['nb']})"
+    if not isinstance(all_s[used[0]], HaltonSampler):
+        return f"the first batch was produced by {type(all_s[used[0]]).__name__}, not by the bootstrap Halton sampler"
+    exp = [int(a) for a in case["actions"][: case["nb"] - 1]]
+    if used[1:] != exp:
+        return f"batches 1.. were produced by samplers {used[1:]}, the agent chose {exp} (losses {case['losses'][:6]})"
+    for b, (si, out) in enumerate(slog.log):
+        if len(out) != all_s[si].batch_size:
+            return f"batch {b} has {len(out)} rows, its sampler's batch size is {all_s[si].batch_size}"
+    return None
+
+
+StandIn("C09/rl-e2e", "C09",
+        "10 seeded RL runs with a scripted agent and scripted losses (exact zeros included), line-ups of 1-4 samplers "
+        "with or without a Halton sampler, 2-5 batches: bootstrap batch by a Halton sampler, every later batch by the "
+        "sampler whose index the agent chose, only supplied samplers (+bootstrap) used, batch sizes",
+        "100 runs", _c09rl_cases, _c09rl_check)
